@@ -56,6 +56,39 @@ fn unwind_for_teardown() -> ! {
 /// driver reports the crash together with the scenario.
 static PASS_THROUGH_OPS: std::sync::atomic::AtomicU64 = std::sync::atomic::AtomicU64::new(0);
 
+/// Heartbeat of the process: incremented at every scheduling point, at the start and at the end of
+/// every execution.  A watchdog thread of the worker (`start_hang_watchdog`) ends the process with
+/// exit code 3 when it stands still for a minute while an execution is running: crate code is then
+/// in a loop that never reaches an instrumented operation, which the scheduler cannot interrupt.
+/// The driver reports that as inconclusive (exit 2), never as a violation.
+pub static HEARTBEAT: std::sync::atomic::AtomicU64 = std::sync::atomic::AtomicU64::new(0);
+pub static EXECUTING: std::sync::atomic::AtomicBool = std::sync::atomic::AtomicBool::new(false);
+
+pub fn start_hang_watchdog() {
+    use std::sync::atomic::Ordering::Relaxed;
+    std::thread::Builder::new()
+        .name("mqv-watchdog".into())
+        .spawn(|| {
+            let mut last = HEARTBEAT.load(Relaxed);
+            let mut still = 0u32;
+            loop {
+                std::thread::sleep(std::time::Duration::from_secs(5));
+                let now = HEARTBEAT.load(Relaxed);
+                if now == last && EXECUTING.load(Relaxed) {
+                    still += 1;
+                    if still >= 12 {
+                        eprintln!("mqv: no scheduling point reached for 60 s inside one execution: the crate is looping without touching shared memory; giving up (inconclusive)");
+                        std::process::exit(3);
+                    }
+                } else {
+                    still = 0;
+                    last = now;
+                }
+            }
+        })
+        .ok();
+}
+
 fn pass_through_op() {
     let n = PASS_THROUGH_OPS.fetch_add(1, std::sync::atomic::Ordering::Relaxed);
     if n > 20_000_000 {
@@ -825,6 +858,7 @@ impl Sched {
     /// A scheduling point of the running thread (which stays runnable).
     fn point<'a>(&'a self, mut st: MutexGuard<'a, State>, me: usize, addr: usize) -> MutexGuard<'a, State> {
         st.consecutive_frees = 0;
+        HEARTBEAT.fetch_add(1, std::sync::atomic::Ordering::Relaxed);
         st.step += 1;
         st.threads[me].steps += 1;
         if st.step > st.cfg.max_steps {
@@ -951,6 +985,8 @@ impl Sched {
     pub fn run<F: FnOnce() + Send + 'static>(&self, cfg: ExecCfg, main: F) -> Outcome {
         assert!(current_tid().is_none(), "run() must be called from an unmanaged thread");
         PASS_THROUGH_OPS.store(0, std::sync::atomic::Ordering::Relaxed);
+        HEARTBEAT.fetch_add(1, std::sync::atomic::Ordering::Relaxed);
+        EXECUTING.store(true, std::sync::atomic::Ordering::Relaxed);
         {
             let mut st = self.lock();
             let exec_no = st.exec_no + 1;
@@ -991,6 +1027,8 @@ impl Sched {
             st = self.done.wait(st).unwrap_or_else(|p| p.into_inner());
         }
         st.active = false;
+        EXECUTING.store(false, std::sync::atomic::Ordering::Relaxed);
+        HEARTBEAT.fetch_add(1, std::sync::atomic::Ordering::Relaxed);
         let verdict = st.abort.clone().unwrap_or(Verdict::Completed);
         let threads = if st.abort.is_some() {
             std::mem::take(&mut st.stuck)
